@@ -32,6 +32,15 @@ def main():
         kw = {f: build(r) for f, r in fields.items()}
         return ThriftObject.from_fields(name, i32=bool(i32), i32list=i32l, **kw)
 
+    def cap_of(o):
+        """the buffer size rule of ThriftObject.to_bytes, replicated (cencoding.pyx 792-800)"""
+        size = 0
+        if o.thrift_name == "RowGroup":
+            size = 1000 * len(o[1])
+        elif o.thrift_name == "FileMetaData":
+            size = 1000 * len(o[4]) * len(o[2]) + len(str(o[5]))
+        return max(size, 500000)
+
     def do(op, p):
         if op == "to_bytes":            # (name, raw int-keyed dict)
             name, data = p
@@ -60,7 +69,7 @@ def main():
             x = build(p)
             b = bytes(x.to_bytes())
             y = from_buffer(b, x.thrift_name)
-            return b, x.contents, y.contents, bool(x == y)
+            return b, x.contents, y.contents, bool(x == y), cap_of(x)
         if op == "dict_eq":
             a, b = p
             return bool(cencoding.dict_eq(a, b))
@@ -69,6 +78,27 @@ def main():
             x = ThriftObject(name, data)
             y = pickle.loads(pickle.dumps(x))
             return bool(x == y), y.contents
+        if op == "specs_names":         # candidate struct names -> those ThriftObject knows (`specs` is a cdef dict)
+            out = []
+            for n in p:
+                try:
+                    ThriftObject(n, {})
+                    out.append(n)
+                except KeyError:
+                    pass
+            return out
+        if op == "reserialise":         # (name, bytes) -> (parsed dict, consumed, printed, to_bytes of the parsed object)
+            name, b = p
+            cap = io.StringIO()
+            old = sys.stdout
+            sys.stdout = cap
+            try:
+                buf = cencoding.NumpyIO(b)
+                d = cencoding.read_thrift(buf)
+                pos = buf.tell()
+            finally:
+                sys.stdout = old
+            return d, pos, cap.getvalue()[:200], bytes(ThriftObject(name, d).to_bytes())
         if op == "ping":
             return "pong"
         raise ValueError(op)
